@@ -91,7 +91,7 @@ def run(chk):
 
 
 def _shared_uses(ops):
-    return sum(2 if o["k"] == "st_set" else 1 for o in ops)
+    return sum(2 if o["k"] in ("st_set", "st_seed") else 1 for o in ops)
 
 
 def _bind(chk, drv, stores, evstores, dbdir, asis, kf, ev, hs, gdump, edump, hdump, keys):
